@@ -86,6 +86,7 @@ def make_run(rng, tag):
         cconf=rng.choice([3, 5, 8, 1000]), cmerge=rng.choice([2, 7, 1000]), fmt=rng.choice(["pin", "pin", "parquet"]),
         prefix=rng.choice([None, None, "a", "b"]), decoys=rng.random() < 0.8, dedup=rng.random() < 0.8,
         data_seed=rng.randrange(1 << 30), cconf_divides=rng.random() < 0.5,
+        proteins=rng.random() < 0.3,        # protein level too (its level file is one more intermediate)
     )
 
 
@@ -95,7 +96,15 @@ def execute(run, dest, workroot, crash=None):
 
     r = random.Random(run["data_seed"])
     df = mkdata.make_psm_table(r, n_spectra=run["n_spectra"], max_per_spectrum=run["max_per"], n_feat=2,
-                               label_enc="pm1", optional=("ExpMass",), level_cols=tuple(run["levels"]), signal=3.0)
+                               label_enc="pm1", optional=("ExpMass",), level_cols=tuple(run["levels"]), signal=3.0,
+                               **(dict(letter_peptides=True, n_peptides=12) if run.get("proteins") else {}))
+    kw = {}
+    if run.get("proteins"):
+        import mokapot
+
+        fasta = mkdata.make_fasta(12, 6, workroot / f"db-{run['tag']}.fasta")
+        with contextlib.redirect_stdout(io.StringIO()), contextlib.redirect_stderr(io.StringIO()):
+            kw = dict(proteins=mokapot.read_fasta(fasta, missed_cleavages=0, min_length=4), rng=1)
     inp = workroot / f"in-{run['tag']}.{run['fmt']}"
     mkdata.write_table(df, inp)
     if run.get("cconf_divides"):   # a chunk size that divides the row count exactly (no partial last chunk)
@@ -105,7 +114,7 @@ def execute(run, dest, workroot, crash=None):
     ds = mkdata.read_dataset(inp)
     with P.chunk_sizes(confidence=run["cconf"], merge=run["cmerge"]), P.pep_kernel(stub=True), crash_at(crash) as ctr:
         P.run_assign_confidence([ds], [df["feat0"].values.astype(float)], dest, prefixes=[run["prefix"]],
-                                decoys=run["decoys"], deduplication=run["dedup"])
+                                decoys=run["decoys"], deduplication=run["dedup"], **kw)
     return ctr
 
 
@@ -192,6 +201,7 @@ def run_case(chk, case, enumerate_all=False):
                      sample=dict(observed={k: str(v) for k, v in obs.items()}, debris=[str(x) for x in debris_ops],
                                  dirty_before=sorted(before)[:12]))
             chk.count("history_len", len(plans)); chk.count("stale_files", case["stale"])
+            chk.count("protein_level", bool(obs.get("proteins")))
             chk.count("debris", "crashed" if any("injected" in str(o[1]) for o in debris_ops) else "completed")
             clause = None
             if err:
@@ -206,7 +216,8 @@ def run_case(chk, case, enumerate_all=False):
                     # this run's own intermediates: chunk files it wrote and the level files
                     own_chunk = {n for n in after if "scores_metadata_" in n and n not in before}
                     pre = f"{obs['prefix']}." if obs["prefix"] else ""
-                    own_levels = ["psms", "peptides"] + [P.LEVEL_FILE[c] for c in obs["levels"]]
+                    own_levels = ["psms", "peptides"] + [P.LEVEL_FILE[c] for c in obs["levels"]] \
+                        + (["proteins"] if obs.get("proteins") else [])
                     left = sorted(n for n in after if n in [f"{ln}{ext}" for ln in own_levels])
                     # a level file that was stale before and is still there unchanged was deleted-by-name: the run
                     # truncates and later unlinks psms.<ext>/peptides.<ext>, so none may remain
@@ -278,7 +289,8 @@ def model_listing(chk, rng):
     """correspondence with the Lean FsRun model: the per-file life cycle (truncate, append*, unlink) of every
     file touched by a real assign_confidence run equals the one of the model's operation list `fsprog k nl decoys`"""
     for _ in range(3):
-        run = make_run(rng, "trace")
+        # (the FsRun model has no protein level yet: its leftovers are checked on the real code in run_case)
+        run = dict(make_run(rng, "trace"), proteins=False)
         with P.workdir() as root:
             dest = root / "d"; dest.mkdir()
             try:
